@@ -1,3 +1,4 @@
+import Cuke.Lemmas.SchedSpin
 import Cuke.Model.AttemptShape
 /-!
 # C02 — Each scenario attempt emits the canonical, declaration-ordered event sequence
@@ -388,5 +389,20 @@ example : (runAttempt exSpec 9).events =
     [.started, .hook .before .started, .hook .before .passed, .bg 0 .started, .bg 0 .passed,
      .step 0 .started, .step 0 .passed, .step 1 .started, .step 1 (.failed (.panic 4)),
      .hook .after .started, .hook .after (.failed 7), .finished] := by decide
+
+/-! ## Whole runs of the scheduler LTS: whose events are sent -/
+
+/-- **Every scenario event that is sent belongs to an attempt in flight** — same scenario, same retry counter,
+    dispatched and not yet ended — and is sent while `execute` … is inside its loop with the silent panic hook installed
+    (`C10.lts_scenario_event_only_while_silenced`). In every log replayed without a disagreement, of any length: no event
+    of an attempt is sent before its dispatch or after its `END`, whatever else interleaves. -/
+theorem lts_scenario_event_of_attempt_in_flight (c : SCfg) (pre : List Label) (k : ScenKey) (ret : Option Retries)
+    (se : ScenEv) (hc : SchedOrd.Clean0 (accept c (pre ++ [.tx (.scen k ret se)])) = true) :
+    ∃ e ∈ (accept c pre).running, e.key = k ∧ e.ret.map (·.retries) = ret := by
+  have hstep : accept c (pre ++ [.tx (.scen k ret se)]) = stepL c (accept c pre) (.tx (.scen k ret se)) := by
+    simp [accept, List.foldl_append]
+  rw [hstep] at hc
+  have hc0 := SchedOrd.clean0_step_mono c _ _ hc
+  exact SchedSpin.tx_scen_clean c _ k ret se (by simpa [SchedOrd.Clean0] using hc0) (by simpa [SchedOrd.Clean0] using hc)
 
 end Cuke.C02
